@@ -38,6 +38,7 @@ def scalar_value(s, dt):
     if kind == "t0d": return torch.tensor(complex(re, im) if dt.is_complex else float(re), dtype=dt)
     if kind == "t1": return torch.tensor([complex(re, im) if dt.is_complex else float(re)], dtype=dt)
     if kind == "complex": return complex(re, im)
+    if kind == "tiny": return float(re) * 2.0 ** -100
     raise ValueError(kind)
 
 
@@ -373,6 +374,8 @@ def _run_variant(case, res, real, prop, stats, label, ops, thunk, dt, s):
     got = project.dense(out.cores)
     if case["op"] == "div_s":
         got = got * s
+    if case.get("s", {}).get("kind") == "tiny":
+        got = got * 2.0 ** 100          # exact: undo the power-of-two scaling of the scalar
     got = got.to(dt) if got.dtype != dt else got
     if list(got.shape) != list(exp.shape):
         problems.append(P(prop, "shape", case, "dense shape %s expected %s" % (list(got.shape), list(exp.shape)), real))
